@@ -1,6 +1,7 @@
 """FIELD-ORDER (C14): every order-sensitive pattern traversal takes named sub-patterns in declaration order."""
 from lib import synq as q
 from lib.core import rule
+from lib.inline import walk_inl as W
 
 TB = "abra_core/src/translate_bytecode.rs"
 EXH = "abra_core/src/statics/pat_exhaustiveness.rs"
@@ -365,13 +366,13 @@ def payload_repr(ctx, r):
         if f is None:
             r.missing(name, TB)
             continue
-        for a in q.walk(f["body"]):
+        for a in W(f["body"]):
             if a["k"] == "Arm" and any(p["k"] == "PTupleStruct" and q.last_seg(p["p"]) == "Named" and "PatVariantData" in p["p"] for p in q.walk(a["pat"])):
-                ifs = [i for i in q.walk(a["body"]) if i["k"] == "If" and any(x["k"] in ("MethodCall", "Call") and "DeconstructStruct" in q.show(x) or (x["k"] == "MethodCall" and x["m"] == "translate_product_pat_comparison") for x in q.walk(i.get("e") or {"k": "Lit"}))]
+                ifs = [i for i in W(a["body"]) if i["k"] == "If" and any(x["k"] in ("MethodCall", "Call") and "DeconstructStruct" in q.show(x) or (x["k"] == "MethodCall" and x["m"] == "translate_product_pat_comparison") for x in W(i.get("e") or {"k": "Lit"}))]
                 for i in ifs[:1]:
                     n += 1
                     c = q.show(i["c"]).replace(" ", "")
-                    r.ob(".len()==1" in c, f"translate_bytecode.rs:{name}:Variant:Named:unwrapped-case", TB, i["l"], f"{name}: the bare-payload case of a named-field variant pattern must be chosen by the declared number of fields (`{c}`)", sample=f"{name}: bare payload iff `{c}`")
+                    r.ob(q.single_element_test(i["c"]) is not None, f"translate_bytecode.rs:{name}:Variant:Named:unwrapped-case", TB, i["l"], f"{name}: the bare-payload case of a named-field variant pattern must be chosen by the declared number of fields (`{c}`)", sample=f"{name}: bare payload iff `{c}`")
     # a void payload is a placeholder slot: both lowerings must test the *payload's* type (the variant pattern itself has the enum's type, never void)
     for name in ("translate_pat_comparison", "handle_pat_binding"):
         f = q.find_fn(items, name, impl_ty="Translator")
@@ -379,7 +380,7 @@ def payload_repr(ctx, r):
             continue
         own = [b for p in f["params"] if not p.get("self") for b in q.pat_bindings(p["pat"])]
         patparam = next((b for p in f["params"] if not p.get("self") and "Pat" in p.get("ty", "") for b in q.pat_bindings(p["pat"])), None)
-        for a in q.walk(f["body"]):
+        for a in W(f["body"]):
             if a["k"] != "Arm" or not any(p["k"] == "PTupleStruct" and q.last_seg(p["p"]) in ("Positional", "Named") and "PatVariantData" in p["p"] for p in q.walk(a["pat"])):
                 continue
             form = next(q.last_seg(p["p"]) for p in q.walk(a["pat"]) if p["k"] == "PTupleStruct" and "PatVariantData" in p["p"])
@@ -426,6 +427,7 @@ def payload_repr(ctx, r):
 
 
 PLACEHOLDER_PRODUCERS = ("GetIndex", "DeconstructVariant", "ArrayPop")
+PLACEHOLDER_CONSUMERS = ("SetIndex", "ArrayPush")
 
 
 @rule("VOID-SLOT", ["C01", "C02"], "a value taken out of a slot that always holds something (array element, variant payload) is a placeholder when its type is void: the lowering that takes it out tests for void")
@@ -462,6 +464,33 @@ def void_slot(ctx, r):
                  f"{f['name']} ({'|'.join(heads)}): `{prod}` always puts a value on the stack; when the static type of that value is void it is a placeholder, and a void expression or binding must leave nothing - no test for void appears in this lowering, so the placeholder stays under whatever is pushed next (wrong tuple fields, or an internal fault on the next loop iteration)",
                  sample=f"{f['name']} {'|'.join(heads)}: {prod} with a void test")
     r.count("placeholder-producing emissions", n, 8, TB)
+    # the other direction: an instruction that always takes a value for the slot (store into an array, push onto one) needs the
+    # placeholder supplied when the element type is void, because evaluating a void expression leaves nothing
+    m = 0
+    for f, _ in q.iter_items(items):
+        if f["k"] != "Fn" or f.get("body") is None:
+            continue
+        arms = [a for a in q.walk(f["body"]) if a["k"] == "Arm"]
+        for x in q.walk(f["body"]):
+            if not (x["k"] == "MethodCall" and x["m"] == "emit" and len(x["args"]) >= 2):
+                continue
+            head = q.show(x["args"][1]).split("(")[0].strip()
+            if not (head.startswith("Instr::") and head.split("::")[1] in PLACEHOLDER_CONSUMERS):
+                continue
+            cons = head.split("::")[1]
+            enclosing = [a for a in arms if any(y is x for y in q.walk(a["body"]))]
+            # the outermost arm of the principal match (the construct being lowered), as above
+            scope = enclosing[0] if enclosing else {"body": f["body"], "pat": {"k": "PWild"}, "l": f["l"]}
+            heads = [q.last_seg(h) for h in q.pat_heads(scope["pat"]) if "::" in h] or ([q.show_pat(scope["pat"]).strip('"')] if enclosing else ["(function body)"])
+            m += 1
+            closures = {b: l["init"] for l in q.walk(f["body"]) if l["k"] == "Local" and l.get("init") is not None and l["init"]["k"] == "Closure" for b in q.pat_bindings(l["pat"])}
+            tests_void = any(y["k"] == "Path" and y["p"] == "SolvedType::Void" for y in q.walk(scope["body"])) or any(
+                y["k"] == "Call" and y["f"]["k"] == "Path" and y["f"]["p"] in closures and any(z["k"] == "Path" and z["p"] == "SolvedType::Void" for z in q.walk(closures[y["f"]["p"]])) for y in q.walk(scope["body"]))
+            aware = tests_void and any(y["k"] == "MethodCall" and y["m"] == "emit" and "PushNil" in q.show(y["args"][1]) for y in q.walk(scope["body"]) if len(y.get("args", [])) >= 2)
+            r.ob(aware, f"translate_bytecode.rs:{f['name']}:{'|'.join(heads)}:{cons}:no-placeholder-for-void", TB, x["l"],
+                 f"{f['name']} ({'|'.join(heads)}): `{cons}` always takes the element from the stack; when the element type is void nothing was pushed for it, so the lowering must push a placeholder first (as the sibling lowerings of `a[i] = v` and `push` do) - without it the instruction takes the index as the element and the array as the index (internal 'expected int but got array' fault)",
+                 sample=f"{f['name']} {'|'.join(heads)}: {cons} with a placeholder for void")
+    r.count("slot-filling emissions", m, 4, TB)
 
 
 @rule("WITNESS-STACK", ["C12"], "a witness row grows at its end, so the fields of a constructor being re-assembled are the last `arity` entries: removal is from the same end")
@@ -537,6 +566,15 @@ def generic_inst(ctx, r):
                  f"{f['name']}: `{q.show(x)[:70]}` is the field's type as declared; for a generic struct or enum it still contains the declaration's type variables, so the column is treated as an unlistable type: exhaustive matches over `option<bool>` are rejected, unreachable arms are missed, and a tuple pattern inside `.some(..)` panics the checker",
                  sample=f"{f['name']}: {q.show(x['recv'])} instantiated with the column's type arguments")
     r.count("declared field types used as column types", n, 3, EXH)
+    # the same for a column *count*: whether a payload occupies a column is a question about the instantiated payload type
+    # (`option<void>` has none), so the written type of a field (`field.ty.kind`) never decides it
+    for f, _ in q.iter_items(items):
+        if f["k"] != "Fn" or f.get("body") is None:
+            continue
+        for x in q.walk(f["body"]):
+            if x["k"] == "Field" and x["f"] == "kind" and q.strip_refs(x["e"])["k"] == "Field" and q.strip_refs(x["e"])["f"] == "ty":
+                r.find(f"pat_exhaustiveness.rs:{f['name']}:{q.show(x)}:declared-type-kind-decides-columns", EXH, x["l"],
+                       f"{f['name']}: `{q.show(x)}` looks at the type a field was declared with; for a generic enum that is the type variable, so `option<void>` is given a payload column here while the sibling computations (from_ast_pat, field_tys), which instantiate the payload type, give it none - `match o {{ .some(x) -> .. _ -> .. }}` on an option<void> then indexes an empty column list and the checker panics")
     # the generator: a declared field type that decides whether the field occupies a slot is read under the instance's type arguments
     titems = ctx.file_items(TB)
     m = 0
@@ -633,3 +671,95 @@ def void_effects(ctx, r):
                  f"{f['name']}: under `{q.show(c['c'])[:60]}` the sub-expression(s) {only_one} are translated in one branch only: when the value is void the call producing it (and its side effects, and any bounds check) silently disappears from the program",
                  sample=f"{f['name']}: operands evaluated on both sides of a void test")
     r.count("void tests guarding sub-expression translation", n, 0, TB)
+
+
+@rule("OR-DECISIONS", ["C14", "C12"], "the record of which alternative of each or-pattern has been taken lives as long as the loop that walks the alternatives: a set created afresh inside that loop forgets the alternatives taken in earlier iterations")
+def or_decisions(ctx, r):
+    items = ctx.file_items(TB)
+    if items is None:
+        r.missing(TB)
+        return
+    n = 0
+    for f, _ in q.iter_items(items):
+        if f["k"] != "Fn" or f.get("body") is None:
+            continue
+        nodes = list(q.walk(f["body"]))
+        order = {id(x): i for i, x in enumerate(nodes)}
+        sets = [x for x in nodes if x["k"] == "Local" and x.get("init") is not None and x["pat"].get("k") == "PIdent" and q.show(x["init"]).replace(" ", "") in ("HashSet::default()", "HashSet::new()")]
+        if not sets:
+            continue
+        blocks = [b for b in nodes if b["k"] == "Block"]
+        loops = [l for l in nodes if l["k"] in ("For", "Loop", "While")]
+        for c in nodes:
+            if c["k"] != "MethodCall" or q.show(c["recv"]) != "self":
+                continue
+            for a in c["args"]:
+                nm = q.show(q.strip_refs(a))
+                cands = [s for s in sets if s["pat"]["name"] == nm and order[id(s)] < order[id(c)]
+                         and any(any(st is s for st in b["stmts"]) and any(y is c for y in q.walk(b)) for b in blocks)]
+                if not cands:
+                    continue
+                decl = max(cands, key=lambda s: order[id(s)])
+                enclosing = [l for l in loops if any(y is c for y in q.walk(l["body"]))]
+                if not enclosing:
+                    continue
+                n += 1
+                inside = [l for l in enclosing if any(y is decl for y in q.walk(l["body"]))]
+                r.ob(not inside, f"translate_bytecode.rs:{f['name']}:{c['m']}:{nm}:decision-set-recreated-per-iteration", TB, decl["l"],
+                     f"{f['name']}: `{nm}` is handed to `{c['m']}` inside a loop that emits one piece of code per alternative of an or-pattern, but it is created inside that loop: every iteration starts with no alternative taken, so each label binds (or compares) through the left-most alternative although the other pass selected the alternative by its own, persistent set - `(n, 0) | (0, n)` matched by the right alternative binds n from the wrong component",
+                     sample=f"{f['name']}: `{nm}` outlives the loop around {c['m']}")
+    r.count("decision sets handed to pattern walks inside loops", n, 2, TB)
+
+
+@rule("BINDING-PAT-TOTAL", ["C01", "C12"], "a pattern that binds without testing (`let`, `for`) is checked to match every value of its type: the exhaustiveness pass hands it to the usefulness analysis")
+def binding_pat_total(ctx, r):
+    items = ctx.file_items(EXH)
+    ast = ctx.file_items("abra_core/src/ast.rs")
+    if items is None or ast is None:
+        r.missing("pat_exhaustiveness.rs / ast.rs")
+        return
+    sk = q.find_enum(ast, "StmtKind")
+    if sk is None:
+        r.missing("StmtKind", "abra_core/src/ast.rs")
+        return
+    # statement kinds that carry a pattern, and where
+    carriers = {}
+    for v in sk["variants"]:
+        for i, fl in enumerate(v["fields"]):
+            t = fl["ty"].replace(" ", "")
+            if t in ("Rc<Pat>", "PatAnnotated") or "Rc<Pat>" in t:
+                carriers[v["name"]] = i
+    r.count("statement kinds carrying a binding pattern", len(carriers), 2, "abra_core/src/ast.rs")
+    # functions of the pass that reach the analysis
+    analysers = set()
+    fns = {f["name"]: f for f, _ in q.iter_items(items) if f["k"] == "Fn" and f.get("body") is not None}
+    changed = True
+    while changed:
+        changed = False
+        for name, f in fns.items():
+            if name in analysers:
+                continue
+            for c in q.walk(f["body"]):
+                if c["k"] == "Call" and c["f"]["k"] == "Path" and (q.last_seg(c["f"]["p"]) == "compute_exhaustiveness_and_usefulness" or q.last_seg(c["f"]["p"]) in analysers):
+                    # only functions that are handed patterns (or arms), not the walkers over statements and expressions
+                    if any("Pat" in p_.get("ty", "") or "MatchArm" in p_.get("ty", "") for p_ in f["params"]):
+                        analysers.add(name)
+                        changed = True
+                    break
+    n = 0
+    for fname, f in fns.items():
+        for m in q.walk(f["body"]):
+            if m["k"] != "Match" or not any(h.startswith("StmtKind::") for a in m["arms"] for h in q.pat_heads(a["pat"])):
+                continue
+            for a in m["arms"]:
+                for p in q.walk(a["pat"]):
+                    if p["k"] == "PTupleStruct" and p["p"].startswith("StmtKind::") and q.last_seg(p["p"]) in carriers:
+                        v = q.last_seg(p["p"])
+                        slot = p["elems"][carriers[v]] if carriers[v] < len(p["elems"]) else None
+                        names = set(q.pat_bindings(slot)) if slot is not None else set()
+                        n += 1
+                        checked = any(c["k"] == "Call" and c["f"]["k"] == "Path" and q.last_seg(c["f"]["p"]) in analysers and any(q.idents_in(x) & names for x in c["args"]) for c in q.walk(a["body"]))
+                        r.ob(bool(names) and checked, f"pat_exhaustiveness.rs:{fname}:{v}:binding-pattern-not-analysed", EXH, a["l"],
+                             f"{fname}: the pattern of `{v}` binds its variables without any test at run time, but the pass never asks whether it matches every value: `let (option.some(s), n) = (o, 1)` is accepted and, for `o = none`, `s` is bound to whatever lies in the payload slot (internal 'expected string but got int' fault)",
+                             sample=f"{fname}: {v} pattern analysed by {sorted(analysers)}")
+    r.count("binding patterns met by the exhaustiveness pass", n, 2, EXH)
